@@ -2,6 +2,7 @@ import Pyunicorn.Model.Random
 import Pyunicorn.Lemmas.RandomSrc
 /-! Helper lemmas for C17 (core Lean only). -/
 namespace Pyunicorn.Random
+open Pyunicorn.Generated.StructC17
 
 theorem rsum_congr {f g : Nat → Int} (n : Nat) (h : ∀ j, j < n → f j = g j) :
     rsum f n = rsum g n := by
@@ -78,7 +79,7 @@ theorem rewire_apply (A : Adj) (s t k l a b : Nat)
       if (a = s ∧ b = l) ∨ (a = l ∧ b = s) ∨ (a = t ∧ b = k) ∨ (a = k ∧ b = t) then true
       else if (a = s ∧ b = t) ∨ (a = t ∧ b = s) ∨ (a = k ∧ b = l) ∨ (a = l ∧ b = k) then false
       else A a b := by
-  unfold rewire Adj.set
+  simp only [rewire, applyWrites, geoWrites, List.foldl_cons, List.foldl_nil, Adj.set]
   grind
 
 
@@ -89,7 +90,7 @@ theorem deg_rewire (A : Adj) (n s t k l v : Nat)
     (h1 : A s t = true) (h2 : A t s = true) (h3 : A k l = true) (h4 : A l k = true)
     (h5 : A s l = false) (h6 : A l s = false) (h7 : A t k = false) (h8 : A k t = false) :
     deg (rewire A s t k l) n v = deg A n v := by
-  unfold rewire
+  simp only [rewire, applyWrites, geoWrites, List.foldl_cons, List.foldl_nil]
   simp only [deg_set]
   simp [Adj.set, *]
   grind [b2i]
